@@ -490,6 +490,13 @@ impl<'a> Searcher<'a> {
                                         }
                                     }
                                 }
+                                // fractional values (an average) compare by value too
+                                if let (Some(a), Some(b)) = (a.get(*i), b.get(*i)) {
+                                    if let (Ok(a), Ok(b)) = (a.1.parse::<f64>(), b.1.parse::<f64>()) {
+                                        let ordering = a.partial_cmp(&b).unwrap_or(std::cmp::Ordering::Equal);
+                                        return if directions[idx] { ordering } else { ordering.reverse() };
+                                    }
+                                }
                                 if directions[idx] { 
                                     a.get(*i).unwrap().1.cmp(&b.get(*i).unwrap().1) 
                                 } else { 
